@@ -34,6 +34,7 @@ type G struct {
 	Names       []string
 	Env         map[string]Ty // static guesses for variables and point keys
 	Defined     map[string]bool
+	PointKeys   map[string]bool // names that are keys of the input point (readable without a variable)
 	Loops       bool
 	Exit        bool // allow exit()
 	AddKey      bool
@@ -374,7 +375,12 @@ func (g *G) assignStmt(d int) *gen.Node {
 		ty = TInt
 	}
 	// compound assignment to an existing numeric/string name
-	if t, ok := g.Env[name]; ok && g.Defined[name] && (t == TInt || t == TFloat || t == TStr) && g.pct("compound", 30) {
+	if t, ok := g.Env[name]; ok && (g.Defined[name] || (g.PointKeys[name] && !g.V2)) && (t == TInt || t == TFloat || t == TStr) && g.pct("compound", 30) {
+		if !g.Defined[name] {
+			// no variable yet: the operand is read from the point's key, the result becomes a new variable
+			g.Feat["compound-assign-on-point-key"] = true
+			g.Defined[name] = true
+		}
 		op := []string{"+=", "-=", "*=", "/=", "%="}[g.n("cop", 0, 4)]
 		if t == TStr {
 			op = "+="
